@@ -107,6 +107,121 @@ def float_order(lc, q):
     return sorted(range(len(lc)), key=lambda i: (keys[i], i))
 
 
+# ---------------------------------------------------------------- binary32 model inside Coq (coq/CellOrderFloat.v)
+ORIENT = ["oN", "oS", "oW", "oE", "oFN", "oFS", "oFW", "oFE", "oINVALID", "oUNKNOWN"]
+POL = ["pANY", "pSAME", "pOPPOSITE", "pNW", "pSE"]
+# orderingHeight = 8, row 2^20 - 1 high, unit cells at x = 10 (index 0) and 9 (index 1): equal binary32 keys (theorem c11_float_order_refuted)
+OF_WITNESS = "OR 1 0 16 0 1048575 0 2 10 0 1 1048575 0 0 0 1 9 0 1 1048575 0 0 0 1 1 2 0 1 8 1 3"
+
+
+def gallina_case(line):
+    """(Gallina circuit, Gallina double parameters) of an OR line"""
+    t = [int(v) for v in line.split()[1:]]
+    nr = t[0]; p = 1
+    rows = []
+    for _ in range(nr):
+        a, b, c, d, o = t[p:p + 5]; p += 5
+        rows.append("{| rr := {| minX := (%d); maxX := (%d); minY := (%d); maxY := (%d) |}; ro := %s |}" % (a, b, c, d, ORIENT[o if 0 <= o <= 8 else 9]))
+    nc = t[p]; p += 1
+    cells = []
+    for _ in range(nc):
+        x, y, w, h, o, pol, fx, ob = t[p:p + 8]; p += 8
+        cells.append("{| c_x := (%d); c_y := (%d); c_w := (%d); c_h := (%d); c_o := %s; c_pol := %s; c_fixed := %s; c_obs := %s |}"
+                     % (x, y, w, h, ORIENT[o if 0 <= o <= 8 else 9], POL[pol if 0 <= pol <= 3 else 4], "true" if fx else "false", "true" if ob else "false"))
+    q = t[p:p + 6]
+    circ = "{| rows := [%s]; cells := [%s] |}" % ("; ".join(rows), "; ".join(cells))
+    par = "{| opd_w := d_of_frac (%d) (%d); opd_y := d_of_frac (%d) (%d); opd_h := d_of_frac (%d) (%d) |}" % tuple(q)
+    return circ, par
+
+
+def float_tie(ctx, count, seed, only_lines=None):
+    """cell_order_f (Flocq binary32 model of computeCellOrder: double -> float parameter conversion, int -> float, one rounding
+    per operator, std::pair order, stable sort) evaluated INSIDE Coq by vm_compute, compared exactly with the vector returned by the
+    real computeCellOrder, on NON-dyadic parameters (<= 100 cases per run); and legalize_float (the closed model with that order)
+    compared with the outcome of Circuit::legalize.  Returns a dict (differences under 'order_mismatch', 'placement_mismatch', 'crash')."""
+    import re
+    harness = common.build_harness("order")
+    count = min(count, 100)
+    if only_lines is not None:
+        lines = list(only_lines)
+    else:
+        wit = ["OR" + l[2:] for l in common.corpus("C11", ("OF ",))] or [OF_WITNESS]       # corpus/C11/cases.txt: OF lines = OR format
+        lines = wit + [l for l in common.harness_gen(harness, ["randf", seed, 3 * count]) if len(leg_cells(split_or(l)[0])) >= 2][:count - len(wit)]
+    impl, _, _ = common.run_both([harness, "run"], None, lines)
+    res = {"cases": len(lines), "orders_equal": 0, "placements_equal": 0, "order_mismatch": [], "placement_mismatch": [], "crash": [],
+           "nondyadic": 0, "in_theorem_domain": 0, "float_order_differs_from_rational_model": 0,
+           "witness_tie_reproduced_on_cpp": False, "lines": lines,
+           "flags": "harness and library built with g++ -std=gnu++17 -O1 for x86-64 (SSE scalar arithmetic, no -ffast-math, no -mfma: no contraction)"}
+    exprs = []
+    for l in lines:
+        circ, par = gallina_case(l)
+        exprs.append("cell_order_f (%s) (%s)" % (par, circ))
+        exprs.append("match legalize_float (%s) (%s) with LegOk c => (0, map (fun k => (c_x k, c_y k, c_o k)) (cells c)) | LegNoRow => (1, []) | LegNotAllPlaced => (2, []) end" % (par, circ))
+    out = common.vm_eval("C11f", "From Coq Require Import List ZArith. From Flocq Require Import Core BinarySingleNaN. Import ListNotations. "
+                                 "Require Import CV.Orient CV.FreeSpace CV.Circuit CV.Legalizer CV.SpreadFloat CV.CellOrderFloat. Local Open Scope Z_scope.", exprs, timeout=900)
+    if out is None:
+        res["crash"].append(("-", "", "", "vm_compute evaluation of CellOrderFloat.cell_order_f failed"))
+        return res
+    for k, (l, i) in enumerate(zip(lines, impl)):
+        ip = i.strip().split(" | ")
+        if len(ip) != 2:
+            res["crash"].append((l, i[-200:], "", "order harness did not return an order and an outcome"))
+            continue
+        cells, q, _ = split_or(l)
+        lc = leg_cells(cells)
+        iord = [int(v) for v in ip[0].split()][1:]
+        mord = [int(v) for v in re.findall(r"\d+", out[2 * k].replace("%nat", ""))]
+        res["nondyadic"] += 0 if all(is_pow2(d) for d in (q[1], q[3], q[5])) else 1
+        dom = 0 <= q[0] <= q[1] and abs(q[2]) <= 2 * q[3] and abs(q[4]) <= 4 * q[5] and all(max(abs(v) for v in c) <= 1 << 20 for c in lc)
+        res["in_theorem_domain"] += 1 if dom else 0
+        _, keys = exact_keys(lc, q)
+        rord = sorted(range(len(lc)), key=lambda j: (keys[j], j))
+        if mord != rord:
+            res["float_order_differs_from_rational_model"] += 1
+        if l == OF_WITNESS and iord == [0, 1]:
+            res["witness_tie_reproduced_on_cpp"] = True
+        if iord != mord:
+            res["order_mismatch"].append((l, ip[0], " ".join(str(v) for v in [len(mord)] + mord)))
+            continue
+        res["orders_equal"] += 1
+        # legalize_float: (0, [(x, y, o); ...]) | (1, []) | (2, [])
+        m = re.match(r"\(\s*(\d)\s*,\s*(.*)\)\s*$", out[2 * k + 1], re.S)
+        kind = {"0": "OK", "1": "NOROW", "2": "NOTALL"}.get(m.group(1) if m else "", "?")
+        body = m.group(2) if m else ""
+        toks = re.findall(r"-?\d+|o[A-Z]+", body)
+        pl = []
+        for j in range(0, len(toks) - 2, 3):
+            pl += [toks[j], toks[j + 1], str(ORIENT.index(toks[j + 2])) if toks[j + 2] in ORIENT else toks[j + 2]]
+        mres = (kind + " " + " ".join(pl)).strip()
+        if " ".join(ip[1].split()) != mres:
+            res["placement_mismatch"].append((l, ip[1][-300:], mres[-300:]))
+        else:
+            res["placements_equal"] += 1
+    return res
+
+
+def float_summary(res):
+    return {k: (len(v) if isinstance(v, list) else v) for k, v in res.items() if k != "lines"}
+
+
+def report_float(ctx, res):
+    n = 0
+    fmt = "OR nrows (minX maxX minY maxY orient)* ncells (x y w h orient pol fixed obs)* wn wd yn yd hn hd effort"
+    for key, broken, what in (
+            ("order_mismatch", "correspondence coq/CellOrderFloat.v cell_order_f (Flocq binary32, vm_compute) <-> LegalizerBase::computeCellOrder",
+             "computeCellOrder differs from the binary32 model cell_order_f evaluated inside Coq"),
+            ("placement_mismatch", "correspondence coq/CellOrderFloat.v legalize_float <-> Circuit::legalize",
+             "Circuit::legalize differs from legalize_float although both use the same cell order"),
+            ("crash", "order harness / vm_compute evaluation of the binary32 model", "the order harness or the Coq evaluation failed")):
+        if res[key]:
+            first = res[key][0]
+            ctx.violation("%s (%d cases); no failing input for the property itself searched here" % (what, len(res[key])),
+                          {"broken": broken, "first_difference": {"case": first[0], "implementation": first[1], "model": first[2]},
+                           "format": fmt}, found_input=False)
+            n += 1
+    return n
+
+
 def run_order(ctx, count, seed, corpus_prop="C11", only_lines=None):
     harness = common.build_harness("order")
     driver = common.build_driver("order")
@@ -200,6 +315,9 @@ def replay_case(case):
     print("case :", case)
     print("summary:", summary(r))
     bad = r["order_mismatch_exact"] + r["differs_from_binary32_emulation"] + r["placement_mismatch"] + r["crash"]
+    fr = float_tie(None, 1, 0, only_lines=[case])                      # the binary32 model inside Coq on the same case
+    print("binary32 model (cell_order_f, legalize_float):", float_summary(fr))
+    bad += fr["order_mismatch"] + fr["placement_mismatch"] + fr["crash"]
     for b in bad:
         print("impl :", b[1])
         print("model:", b[2])
@@ -207,6 +325,13 @@ def replay_case(case):
 
 
 if __name__ == "__main__":
+    if len(sys.argv) > 1 and sys.argv[1] == "float":
+        r = float_tie(None, int(sys.argv[3]) if len(sys.argv) > 3 else 100, int(sys.argv[2]) if len(sys.argv) > 2 else 1)
+        print(float_summary(r))
+        bad = r["order_mismatch"] + r["placement_mismatch"] + r["crash"]
+        for b in bad[:3]:
+            print(b)
+        sys.exit(1 if bad else 0)
     seed = int(sys.argv[1]) if len(sys.argv) > 1 else 1
     count = int(sys.argv[2]) if len(sys.argv) > 2 else 3000
     r = run_order(None, count, seed)
